@@ -160,6 +160,25 @@ def _solve(ssm_name, vf, u0, *, strategy, routine, solver_name="mle", jit=False,
         return (jax.jit(fn) if jit else fn)(prior)
 
 
+def _coupled(u, *, t):
+    """strongly coupled (full Jacobian) problem for the permutation check under first-order linearisation"""
+    return jnp.asarray([-u[0] * u[1] + 0.5 * u[2], u[0] * u[1] - 0.7 * u[3] * u[1], 0.8 * u[3] - 0.3 * u[2] * u[0] + 0.1 * jnp.sin(t), -0.5 * u[3] + 0.4 * u[1] * u[2]])
+
+
+def _solve_coupled(ssm_name, vf, u0, strategy):
+    """loose tolerances: a component-order dependence of the error estimate moves the accepted steps visibly"""
+    ode = pdq.ode(vf, jacobian=pdq.jacobian_materialize())
+    tc, _ = pdq.jetexpand_ode_padded_scan(num=3)(ode, (u0,), t=0.0)
+    ssm = realruns.SSMS[ssm_name]()
+    prior = ssm.prior_wiener_integrated(tc)
+    constraint = ssm.constraint_ode_ts1(ode)
+    solver = realruns.make_solver("mle", strategy, constraint)
+    err = pdq.error_residual_std(constraint=constraint)
+    with warnings.catch_warnings():
+        warnings.simplefilter("ignore")
+        return ivpsolve.solve_adaptive_save_at(solver=solver, error=err)(prior, save_at=jnp.asarray([0.0, 0.8, 1.7, 3.0]), atol=1e-2, rtol=1e-1, dt0=0.05)
+
+
 def _real_modes(rep, tier, seed):
     v0 = jnp.asarray([2.0, 1.0, 0.5, 0.25])
     ssms = ["dense", "iso", "bd"]
@@ -215,6 +234,23 @@ def _real_modes(rep, tier, seed):
                 rep.violation(f"impl:jit:{ssm_name}:{strategy}:{routine}", "jit changes the result", {})
             if not np.array_equal(np.asarray(solj.num_steps), np.asarray(ref.num_steps)):
                 rep.violation(f"impl:jit:{ssm_name}:{strategy}:{routine}:steps", "jit changes the step counts", {})
+    # permutation under FIRST-order linearisation (coupled Jacobian): adaptive runs, where a component-order dependence of
+    # the error estimate changes the accepted steps
+    perm = np.asarray([2, 0, 3, 1])
+    inv = np.argsort(perm)
+    for ssm_name in ("dense", "bd"):
+        for strategy in (("filter",) if tier == "quick" else ("filter", "fixedpoint")):
+            ref = _solve_coupled(ssm_name, _coupled, v0, strategy)
+            solp = _solve_coupled(ssm_name, lambda u, *, t: _coupled(u[inv], t=t)[perm], v0[perm], strategy)
+            rep.traces += 1
+            rep.add_case(("perm-ts1", ssm_name, strategy))
+            if not np.array_equal(np.asarray(solp.num_steps), np.asarray(ref.num_steps)):
+                rep.violation(f"impl:permutation:{ssm_name}:{strategy}:adaptive-ts1:steps", f"permuting components changes the accepted steps: {np.asarray(solp.num_steps)} vs {np.asarray(ref.num_steps)}", {})
+            else:
+                em = realruns.rel(np.asarray(solp.u.mean[0])[:, inv], np.asarray(ref.u.mean[0]))
+                es = realruns.rel(np.asarray(solp.u.std[0])[:, inv], np.asarray(ref.u.std[0]))
+                if em > 1e-9 or es > 1e-7:
+                    rep.violation(f"impl:permutation:{ssm_name}:{strategy}:adaptive-ts1:values", f"permuting components does not permute the TS1 solution: mean {em:.2e}, std {es:.2e}", {})
     # vmap over initial values / stiffness: members need very different numbers of steps
     for ssm_name in ssms:
         for strategy in ("filter", "fixedpoint"):
